@@ -375,7 +375,7 @@ theorem step_refines {s : State} {m : Mon} (hI : Inv s) (hR : Rel s m) (op : Op)
       rw [hI.cnt, hR.len]
       simp only [uint64OfInt, Int.natAbs_natCast]
       exact Nat.mod_eq_of_lt (by omega)
-    simp [this, geoOf]
+    simp [this, geoOf, htot]
   | setAllocation k x l =>
     simp only [step]
     unfold setAllocation
